@@ -133,6 +133,7 @@ fn dispatch(ctx: &Ctx) -> Outcome {
     {
         use std::sync::atomic::Ordering;
         let (n, bad) = (util::LOGGER_REENTRIES.load(Ordering::Relaxed), util::LOGGER_TROUBLE.load(Ordering::Relaxed));
+        out.extra.push(("log_level_moved".into(), J::s(format!("{} times through Trace / Debug / Info / Warn / Error / Off while the workloads ran", util::LEVEL_CHANGES.load(Ordering::Relaxed)))));
         out.extra.push(("logger_used_the_library_itself".into(), J::s(format!("{} times while a library call was logging ({} went wrong)", n, bad))));
         if bad > 0 && ["C12", "C13", "C14", "C19"].contains(&ctx.prop.as_str()) {
             out.report.violation("reentrant_logger", "library_misbehaves_inside_a_logger", "reentrant-logger", format!("a logger that configures a virtual sign of its own, codes a frame and draws on a page while the library call that logged is still running got a wrong result {} time(s) out of {}", bad, n), J::obj(vec![("workload", J::s("re-entrant logger"))]));
